@@ -142,7 +142,7 @@ def parse_gen_answer(ans):
     for x in f[5:]:
         a, b = x.split(".")
         toks.append((unhx(a), unhx(b)))
-    return {"ok": f[1] == "1", "parser": f[2], "lr": f[3], "lr_cls": f[4], "toks": toks}
+    return {"ok": f[1][0] == "1", "lex_safe": f[1][1] == "1", "parser": f[2], "lr": f[3], "lr_cls": f[4], "toks": toks}
 
 
 def lr_letter(v):
@@ -457,7 +457,7 @@ def run(ctx):
         sentences += S
     dist = {"sentences": len(sentences), "by_block": Counter(), "by_parser": Counter(), "tokens": Counter(),
             "shape_ok": 0, "outside_shape_predicate": 0, "not_representable": 0, "lexer_compared": 0,
-            "automaton_compared": 0, "automaton_real_raised": 0, "model_lr": Counter(), "real_parser": Counter(),
+            "automaton_compared": 0, "number_spelling_not_lex_safe": 0, "automaton_real_raised": 0, "model_lr": Counter(), "real_parser": Counter(),
             "oracle_failures": Counter(), "feature_tags": Counter(), "masks": Counter()}
     reqs = []
     idx = []
@@ -502,12 +502,15 @@ def run(ctx):
                 render_bad.append({"text": s["text"], "parser": [m["parser"], parser]})
             if m["ok"]:
                 dist["shape_ok"] += 1
+            if m["ok"] and m["lex_safe"]:
                 dist["lexer_compared"] += 1
                 if not same_tokens(m["toks"], real):
                     lex_bad.append({"text": s["text"], "block": block, "model": m["toks"][:60],
                                     "real": real if isinstance(real, tuple) else real[:60]})
-            else:
+            elif not m["ok"]:
                 dist["outside_shape_predicate"] += 1
+            else:
+                dist["number_spelling_not_lex_safe"] += 1
             dist["model_lr"][lr_letter(m["lr"])] += 1
         # automaton correspondence on the tokens the real lexer produced
         if s["real_classes"] is not None:
@@ -547,7 +550,14 @@ def run(ctx):
         ctx.broken_obligations.append({"obligation": "automaton: real SLY parser verdict = Coq LR driver on the generated tables",
                                        "detail": {"n": len(lr_bad), "first": lr_bad[0]}})
     # vm_compute cross-check of a sample of the model answers
-    nx, bad = vlib.vm_crosscheck("CoreGrammar", reqs, answers, sample=25 if quick else 120, seed=ctx.seed)
+    try:
+        nx, bad = vlib.vm_crosscheck("CoreGrammar", reqs, answers, sample=25 if quick else 120, seed=ctx.seed)
+    except RuntimeError as e:
+        if "inconsistent assumptions" not in str(e):
+            raise
+        # another check rebuilt a shared Gen/*.vo between our build and this compilation: rebuild and retry once
+        vlib.coq_make(["Properties/C12.vo", "Model/CoreGrammar.vo"])
+        nx, bad = vlib.vm_crosscheck("CoreGrammar", reqs, answers, sample=25 if quick else 120, seed=ctx.seed)
     if bad:
         ctx.broken_obligations.append({"obligation": "extraction cross-check CoreGrammar", "detail": bad[:2]})
     n_ref = check_refuted(ctx)
